@@ -168,10 +168,18 @@ Record msg : Type := mkMsg {
   m_reject : bool
 }.
 
+(* nested conditionals rather than a conjunction: the extracted code stops at the first
+   differing field *)
 Definition msg_eqb (a b : msg) : bool :=
-  mtype_eqb (m_type a) (m_type b) && (m_from a =? m_from b) && (m_to a =? m_to b)
-  && (m_term a =? m_term b) && (m_logterm a =? m_logterm b) && (m_index a =? m_index b)
-  && log_eqb (m_ents a) (m_ents b) && (m_commit a =? m_commit b) && Bool.eqb (m_reject a) (m_reject b).
+  if mtype_eqb (m_type a) (m_type b) then
+  if m_from a =? m_from b then
+  if m_to a =? m_to b then
+  if m_term a =? m_term b then
+  if m_index a =? m_index b then
+  if m_logterm a =? m_logterm b then
+  if m_commit a =? m_commit b then
+  if Bool.eqb (m_reject a) (m_reject b) then log_eqb (m_ents a) (m_ents b)
+  else false else false else false else false else false else false else false else false.
 
 (* ------------------------------------------------------------------ transitions of one node *)
 
